@@ -143,6 +143,25 @@ func srvAnswersCorpus() []*CaseSpec {
 			one(b, c, op(b, A, "DEFAULT", nhg(5, 2)))
 			one(b, c, op(b, A, "DEFAULT", nh(4)))
 		})))
+		// several held REPLACEs whose keys go away (they can only fail at the next retry) next to a
+		// held group whose next-hop then arrives: whichever the retry walk meets first, the group
+		// is answered in that cascade
+		out = append(out, srvCase(fmt.Sprintf("srv.answers/corpus/failing-held-next-to-resolvable-held/%s", B(fib)), cfg, mk(fib, func(b *cutBuilder, c int) {
+			one(b, c, op(b, A, "DEFAULT", nh(1)))
+			one(b, c, op(b, A, "DEFAULT", nhg(1, 1)))
+			for i := 0; i < 6; i++ {
+				one(b, c, op(b, A, "DEFAULT", v4(fmt.Sprintf("10.%d.0.0/16", i), 1)))
+			}
+			for i := 0; i < 6; i++ {
+				one(b, c, op(b, R, "DEFAULT", v4(fmt.Sprintf("10.%d.0.0/16", i), 7)))
+			}
+			for i := 0; i < 6; i++ {
+				one(b, c, op(b, D, "DEFAULT", v4(fmt.Sprintf("10.%d.0.0/16", i), 1)))
+			}
+			one(b, c, op(b, A, "DEFAULT", nhg(3, 9)))
+			one(b, c, op(b, A, "DEFAULT", nh(9)))
+			one(b, c, op(b, A, "DEFAULT", nh(4)))
+		})))
 		// an operation without a network instance in the middle of a batch (D3)
 		out = append(out, srvCase(fmt.Sprintf("srv.answers/corpus/empty-ni-mid-batch/%s", B(fib)), cfg, mk(fib, func(b *cutBuilder, c int) {
 			b.ops(c, &spb.ModifyRequest{Operation: []*spb.AFTOperation{op(b, A, "DEFAULT", nh(1)), op(b, A, "", nh(2)), op(b, A, "DEFAULT", nh(3)), op(b, A, "NO-SUCH-NI", nh(4)), op(b, A, "DEFAULT", nh(5))}})
